@@ -520,6 +520,7 @@ def runtime_bases():
     return B
 
 
+N_BASIC_RT_ROUTES = 7
 RT_ROUTES = [
     ("dot", lambda b, A: obs(f"{b}.{A}"), False),
     ("sub", lambda b, A: obs(f'{b}["{A}"]'), False),
@@ -581,6 +582,7 @@ IMMUTABLE_QUICK = ["sync-immutable", "async-immutable"]
 class Rec:
     def __init__(self):
         self.values = []
+        self.compiled = None
         self.cap_name = None
         self.captured = []
 
@@ -700,6 +702,7 @@ def run_once(cfg, src, data, compiled=None, cache_size=0):
     del TOUCHED[:]
     if compiled is None:
         compiled = sbx.compile_src(env, src)
+    rec.compiled = compiled
     res = sbx.render_code(env, compiled, data)
     touched = [t for t in TOUCHED]
     return res, rec, touched, env
@@ -862,24 +865,26 @@ def rt_shard(arg):
     bases = {b[0]: b for b in runtime_bases()}
     for bid in base_ids:
         _, pre, bexpr, post = bases[bid]
-        for rrid, rfn, is_fmt in RT_ROUTES:
+        literal = bid.startswith("lit")
+        for ri, (rrid, rfn, is_fmt) in enumerate(RT_ROUTES):
+            if ri >= N_BASIC_RT_ROUTES and not literal:
+                continue  # the folding-position routes matter for bases the optimizer can evaluate
             rid = f"rt-{rrid}"
 
             def build(name):
                 return pre + "{{ %s|c17cap }}" % bexpr + rfn(bexpr, name) + post
 
             csrc = build(MISSING_NAME)
+            ctl_once = run_once(cfg, csrc, {})[0]
             for A in NAMES:
                 p.evals += 1
                 src = build(A)
                 # no compile cache here: constant folding evaluates attribute access, filters and finalize
                 # at COMPILE time, so the recorder of the compiling environment must be the judged one
                 res, rec, touched, env = run_once(cfg, src, {})
-                check_struct(p, asy, src, compile_cfg(cfg, src), rid)
+                check_struct(p, asy, src, rec.compiled, rid)
                 Fs = forbidden_values(rec.captured, A)
-                ctl_res = None
-                if Fs:
-                    ctl_res = run_once(cfg, csrc, {})[0]
+                ctl_res = ctl_once if Fs else None
                 sig = judge(p, cfg, f"{rid}/{bid}", is_fmt, src, "runtime:" + bid, A, None, Fs, res, rec, touched, ctl_res)
                 if Fs:
                     p.count("nontrivial")
@@ -1111,16 +1116,19 @@ def run(ctx: core.Ctx):
     step = 600
     imm = IMMUTABLE_QUICK if ctx.quick else [c for c in CONFIGS if "immutable" in c]
     cfgs = [c for c in cfgs if "immutable" not in c]
-    shards = [("data", (cfg, c, KINDS + CONTAINER_KINDS)) for cfg in cfgs for c in chunks(rids, 4)]
+    plain_kinds = KINDS + (["listsub", "dictsub"] if ctx.quick else CONTAINER_KINDS)
+    shards = [("data", (cfg, c, plain_kinds)) for cfg in cfgs for c in chunks(rids, 4)]
     # immutable sandbox: container receivers (its own attribute rules apply to them) plus the probe as a control
-    shards += [("data", (cfg, c, CONTAINER_KINDS + ["probe"])) for cfg in imm for c in chunks(rids, 6)]
-    cfgs_rt = cfgs + imm
-    shards += [("rt", (cfg, c)) for cfg in cfgs_rt for c in chunks(bids, 2)]
+    imm_data = imm[:1] if ctx.quick else imm
+    shards += [("data", (cfg, c, CONTAINER_KINDS + ["probe"])) for cfg in imm_data for c in chunks(rids, 6)]
+    shards += [("rt", (cfg, c)) for cfg in cfgs for c in chunks(bids, 2)]
+    container_bases = [b[0] for b in runtime_bases() if b[2].lstrip("(").startswith(("[", "{", "dict(", "kwargs"))]
+    shards += [("rt", (cfg, c)) for cfg in imm for c in chunks(container_bases, 2)]
     shards += [("from", (cfg, c)) for cfg in cfgs for c in chunks([f[0] for f in FROM_FORMS], 3)]
     shards += [("grammar", (asy, lo, lo + step)) for asy in (False, True) for lo in range(0, n, step)]
     ctx.pmap(dispatch, shards)
     ctx.cov["bounds"] = {
-        "configs": cfgs, "immutable_configs": imm, "container_kinds": CONTAINER_KINDS, "data_routes": len(rids), "names": len(NAMES), "object_kinds": len(KINDS),
+        "configs": cfgs, "immutable_configs": imm, "immutable_runtime_bases": container_bases, "kinds_plain_configs": plain_kinds, "container_kinds": CONTAINER_KINDS, "data_routes": len(rids), "names": len(NAMES), "object_kinds": len(KINDS),
         "from_import_forms": len(FROM_FORMS), "from_import_names": len(FROM_NAMES), "runtime_bases": len(bids), "runtime_routes": len(RT_ROUTES), "grammar_programs_per_mode": n,
     }
     unknown = {k: v for k, v in ctx.counters.items() if k.startswith("struct_unknown_name:")}
